@@ -15,7 +15,7 @@ from ..progrun import Scenario, Name
 from . import c12
 
 RAW_KINDS = [5, -1, 0.5, True, "text", "12", "", Name("Rd"), Name("NoSuch"), Name("word"), [], [1, 2], ["a"], [[1], [2]], [Name("Rd")], [Name("Tok")],
-             {"k": "v"}, "é☃", "a\\b", 'q"uote', "snow ☃\there \\ \"x\"", "\u00b2", "1\u00b3", "\u2460", {"k☃": "v\n☃"}, "in\x00put.csv", "x" * 5000]      # ², 1³, ①: digits to str.isdigit, not to int()
+             {"k": "v"}, "é☃", "a\\b", 'q"uote', "snow ☃\there \\ \"x\"", "\u00b2", "1\u00b3", "\u2460", "nan", "-inf", "1e999", {"k☃": "v\n☃"}, "in\x00put.csv", "x" * 5000]      # ², 1³, ①: digits to str.isdigit, not to int()
 
 
 def boundary_ok(outcome):
@@ -32,7 +32,7 @@ def kind_matrix(ctx, classes, env, tmp):
         cmds = c12.producers(env) + [call]
         names = [n for n in cls.inputs if n != "Fail"]
         for name in names:
-            kinds = RAW_KINDS if ctx.thorough else rng.sample(RAW_KINDS[:-7], 5) + [rng.choice(RAW_KINDS[-7:-4])] + RAW_KINDS[-4:]
+            kinds = RAW_KINDS if ctx.thorough else rng.sample(RAW_KINDS[:-10], 5) + [rng.choice(RAW_KINDS[-10:-7]), rng.choice(RAW_KINDS[-7:-4])] + RAW_KINDS[-4:]
             for v in kinds:
                 args = [(n, x) for n, x in call[2] if n != name] + [(name, v)]
                 scs.append((Scenario(cmds[:-1] + [(call[0], call[1], args)], wd=tmp, libs=c12.LIBS), "kind:%s.%s" % (cls.name, name)))
@@ -42,6 +42,10 @@ def kind_matrix(ctx, classes, env, tmp):
         scs.append((Scenario([("a", "N", [("Fail", fail)]), ("b", "N", [("One", Name("a"))]), ("c", "N", [("Many", [Name("b")])])], libs=c12.LIBS), "failing-body"))
         scs.append((Scenario([("c", "N", [("Many", [Name("b")])]), ("b", "N", [("One", Name("a"))]), ("a", "N", [("Fail", fail)])],
                              ops=[("run",), ("result", "c"), ("run",)], libs=c12.LIBS), "failing-body"))
+        # the failed command itself asked again, directly (a front end reading results one by one after a failed run)
+        scs.append((Scenario([("c", "N", [("Many", [Name("b")])]), ("b", "N", [("One", Name("a"))]), ("a", "N", [("Fail", fail)])],
+                             ops=[("run",), ("result", "a"), ("result", "a"), ("result", "b"), ("run",)], libs=c12.LIBS), "failing-body"))
+        scs.append((Scenario([("a", "N", [("Fail", fail)])], ops=[("result", "a"), ("result", "a"), ("run",), ("run",)], libs=c12.LIBS), "failing-body"))
     return scs
 
 
@@ -102,6 +106,8 @@ def cli(ctx, tmp, count):
     cases = [
         ("ok.mpt", 'A = EEMSRead(InFileName = "in.csv", InFieldName = a)\n', 0, None),
         ("missing_param.mpt", '\n\nA = EEMSRead(InFileName = "in.csv")\n', 1, 3),
+        ("bad_cell_far.mpt", 'A = EEMSRead(InFileName = "bad7.csv", InFieldName = a)\n', 1, None),      # the bad cell is on line 7 of the data file; the model has one line
+        ("nan_text.mpt", 'A = EEMSRead(InFileName = "in.csv", InFieldName = a, MissingVal = nan)\nB = CvtToBinary(InFieldName = A, Threshold = -inf, Direction = LowToHigh)\n', 0, None),
         ("no_cmd.mpt", '# c\nA = Nope(X = 1)\n', 1, 2),
         ("bad_value.mpt", 'A = EEMSRead(InFileName = "in.csv", InFieldName = a)\nB = Normalize(\n  InFieldName = A,\n  StartVal = [1, 2]\n)\n', 1, 4),
         ("no_file.mpt", 'A = EEMSRead(\n  InFileName = "nofile.csv",\n  InFieldName = a)\n', 1, 2),
@@ -111,7 +117,7 @@ def cli(ctx, tmp, count):
         ("weights.mpt", 'A = EEMSRead(InFileName = "in.csv", InFieldName = a)\nB = WeightedSum(InFieldNames = [A, A], Weights = [1])\n', 1, None),
         ("syntax.mpt", 'A = EEMSRead(InFileName = "in.csv", InFieldName = a\n', None, None),
     ]
-    for f, text in (("in.csv", "a,b\n1,2\n3,4\n"), ("in3.csv", "a\n1\n2\n3\n"), ("bad.csv", "a\n1\nx\n")):
+    for f, text in (("in.csv", "a,b\n1,2\n3,4\n"), ("in3.csv", "a\n1\n2\n3\n"), ("bad.csv", "a\n1\nx\n"), ("bad7.csv", "a\n1\n2\n3\n4\n5\nx\n")):
         open(os.path.join(tmp, f), "w").write(text)
     for name, src, want_fail, line in cases[:count]:
         path = os.path.join(tmp, name)
@@ -266,7 +272,7 @@ def run(ctx):
     deep_models(ctx)
     netcdf_faults(ctx, tmp)
     csv_faults(ctx, tmp)
-    cli(ctx, tmp, 10 if ctx.thorough else 7)
+    cli(ctx, tmp, 12 if ctx.thorough else 9)
     return ctx.finish(
         rule="(a) every command x parameter x raw kinds (numbers, booleans, strings incl. non-ASCII/backslash/quote, names of results of every kind, "
              "unknown names, lists, nested lists, dicts) and failing bodies, through from_source()/run()/result; (b) single-token corruptions of those "
